@@ -346,6 +346,13 @@ def coll_docs(max_len, nested_max_len):
         out.append((gen.to_yaml(t), shape, []))
         if len(t) <= nested_max_len:
             out.append((gen.to_yaml({"k": t, "z": 1}), shape, ["k"]))
+    # the same value written in different YAML styles (hexadecimal / octal / underscored integers, plain and quoted
+    # text, 1.5 and 1.50): still one group of equal values
+    for vals in (("16", "0x10", "3"), ("0x10", "16", "0o20", "1_6"), ("abc", '"abc"', "'abc'", "d"), ("1.5", "1.50", "2.5"),
+                 ("3", "16", "0x10")):
+        out.append(("[%s]" % ", ".join(vals), "seq", []))
+        out.append(("[%s]" % ", ".join("{%s: %s}" % (ATTR, v) for v in vals), "aoh", []))
+        out.append(("{%s}" % ", ".join("k%d: {%s: %s}" % (i, ATTR, v) for i, v in enumerate(vals)), "hoh", []))
     return out
 
 
